@@ -23,7 +23,11 @@ CONTEXTS = {
     'twins': dict(x=(-1, 1), x2=(-1, 1), b='bool', b2='bool'),
     # hints with a single value still range over their bits (0..1, -4..-1)
     'singletons': dict(k=(0, 0), m=(-3, -3), x=(-2, 1), b='bool'),
+    # a Boolean whose name looks like a bit of the integer next to it (legal: x has bits x_0, x_1 only)
+    'lookalike': dict(x=(0, 3), x_7='bool', x_2='bool', b='bool'),
 }
+# same number of bits, different type hints (opposite implicit sign bits); used by the rename family only
+SAME_WIDTH = dict(p=(0, 3), q=(-3, -1), r=(0, 3), b='bool')
 
 
 def _enc(t, name, v):
@@ -179,6 +183,21 @@ def h_rename_replace(ctx):
     r = ctx.call(rb, c, u, {bname: g}, label='replace_with_bdd')
     w.oblige('replace_with_bdd.post: Boolean variable replaced by the predicate',
              spec.equiv(w, w.term(r), spec.subst(w.term(u), [(w.z(bname), w.term(g))])))
+    # renaming between integers with different type hints: refused, or exact w.r.t.
+    # the VALUES (never a silent reinterpretation of the bits)
+    for a, b in ctx.p.get('hint_mismatch', []):
+        um = w.pred(f'Uh_{a}', [x for x in allbits if x not in w.bits_of([b])])
+        try:
+            rr = let(c, {a: b}, um)
+        except AssertionError:
+            continue
+        den_ = denote.Den(c.vars, w.z)
+        va, vb = den_.var_int(a), den_.var_int(b)
+        # value-exact: r(s) holds iff u holds at s with a := value of b; expressed
+        # bit-wise this requires the two encodings to agree, which they do not here
+        la, lb = den_.limits(a), den_.limits(b)
+        w.oblige(f'let({a} -> {b}) between integers with different type hints is refused (the encodings {la} and {lb} differ)',
+                 z3.BoolVal(la == lb))
     # type mismatch must be refused
     if w.symbolic and ctx.p.get('mismatch'):
         a, b = ctx.p['mismatch']
